@@ -305,7 +305,8 @@ def define_stage(R, rdd, s, k, c, flag):
         def w(x):
             R.rec(s, R.pid(x), x)
             r = f(enc(x))
-            return (1 if r else None) if flag else r      # flag: a predicate that answers truthy / falsy, not bool
+            # flag: a predicate that answers with truthy / falsy OBJECTS instead of bool
+            return [r, (1 if r else None), ('x' if r else ''), ([0] if r else []), (1.5 if r else 0.0)][flag]
         return rdd.filter(w)
     if k == FLATMAP:
         f = GFN[c]
@@ -314,7 +315,8 @@ def define_stage(R, rdd, s, k, c, flag):
             pid = R.pid(x)
             R.rec(s, pid, x)
             out = [obj(v, pid) for v in f(enc(x))]
-            return iter(out) if flag else out
+            # flag: the function returns a list / an iterator / a tuple / a generator
+            return [out, iter(out), tuple(out), (o for o in out)][flag]
         return rdd.flatMap(w)
     if k == SAMPLE:
         f = MFN[c]
@@ -451,8 +453,14 @@ def run_action(R, rdd, sa, action):
             return int(comb(enc(x), enc(y)))
         return enc(rdd.aggregate(a1, ws, wc))
     if a == A_FOREACH:
+        # a1: what the function RETURNS (foreach ignores it): nothing / the new tally / the element itself (dict.setdefault
+        # style, truthy for most) / truthy for odd codes only / a non-empty list
+        tally = [0]
+
         def w(x):
             R.rec(sa, R.pid(x), x)
+            tally[0] += 1
+            return [None, tally[0], x, (enc(x) % 2 or None), [x]][a1]
         return rdd.foreach(w)
     if a == A_COUNTBYVALUE:
         d = rdd.countByValue()
@@ -740,7 +748,7 @@ SENTINEL_SOURCES = [(0, [0, 1, 2, 3, 4, 5], 3), (0, [0, 0, 1, 2], 2), (1, [[0, 0
 def rand_stage(rng):
     k = rng.choice([MAP, MAP, MAP, FILTER, FILTER, FLATMAP, FLATMAP, SAMPLE, PERSIST, EAGER, GENSUM, CACHE])
     c = rng.randrange(NLIB[k]) if k in NLIB else 0
-    flag = rng.randrange(2) if k in (FLATMAP, SAMPLE, EAGER, FILTER) else 0
+    flag = rng.randrange(2) if k in (SAMPLE, EAGER) else rng.randrange(4) if k == FLATMAP else rng.randrange(5) if k == FILTER else 0
     if k == EAGER and c == 4:
         flag = 1    # [sum(xs)] of an empty partition has no element to take the partition tag from
     if k == SAMPLE and rng.random() < 0.35:
@@ -816,7 +824,7 @@ def single_actions(rng, src, stages, every_reducer=False):
     singles = [(A_COLLECT, 0, 0, 0), (A_COUNT, 0, 0, 0),
                (A_FOLD, rng.choice([0, 1, -2]), rng.randrange(len(OP)), 0),
                (A_AGGREGATE, rng.choice([0, 3]), rng.randrange(len(OP)), rng.randrange(len(OP))),
-               (A_FOREACH, 0, 0, 0), (A_SAVE, 0, 0, 0), (A_SAVE, rng.randrange(len(SUFFIXES)), 1, 0)]
+               (A_FOREACH, rng.randrange(5), 0, 0), (A_FOREACH, rng.choice([1, 2]), 0, 0), (A_SAVE, 0, 0, 0), (A_SAVE, rng.randrange(len(SUFFIXES)), 1, 0)]
     if STR not in outs:
         singles.append((A_SAVE, rng.randrange(1, len(SUFFIXES)), 0, 0))       # compressed text, read back by textFile
     if not any(len(xs) == 1 and xs[0] in UNTAGGABLE for xs in outs_pp):
@@ -996,6 +1004,18 @@ def generate(rng, tier):
     else:
         pairs = rng.sample(pairs, 14000)
     cases.extend(pairs)
+    # what the functions RETURN must not matter: foreach with every return variant, filter predicates answering with
+    # objects, flatMap functions returning tuples / generators, map returning None -- below and above other functions
+    rets = []
+    for src in [(0, [3, 0, 4, 2, 7], 2), (0, [1, 2, 3], 1), (0, [0, 0, 5, 6], 0), (1, [[], [2, 9, 4], [4]], 0)]:
+        for pipe in ([], [(MAP, 0, 0)], [(MAP, 6, 0)], [(MAP, 5, 0)], [(FILTER, 0, 2)], [(FILTER, 1, 3)], [(FILTER, 4, 4)],
+                     [(FLATMAP, 0, 2)], [(FLATMAP, 4, 3)], [(MAP, 0, 0), (FILTER, 2, 3), (FLATMAP, 3, 3)]):
+            for ret in range(5):
+                rets.append((src, list(pipe), (A_FOREACH, ret, 0, 0)))
+            for act in single_actions(rng, src, pipe) + [(A_TAKE, 2, 0, 0), (A_ISEMPTY, 0, 0, 0)]:
+                if act[0] not in (A_FOREACH, A_SAVE):
+                    rets.append((src, list(pipe), act))
+    cases.extend(rets)
     # histories: several actions on ONE dataset object (uncached lineages)
     n_hist = 300 if quick else 6000
     while n_hist > 0:
